@@ -71,6 +71,7 @@ func (r *capRoute) take() (got, cp [][]byte) {
 }
 
 type tRoute struct {
+	key   string
 	kind  string
 	m     [6]string
 	dests [][6]string
@@ -249,6 +250,28 @@ func init() {
 				collectRoutes("ad")
 			}
 		}
+		// measure what the barrier's own sentinel line does to the destination counters (again after every change of a
+		// route's or destination's filter: the sentinel may match differently)
+		measureSentinel := func() {
+			sentEff = nil
+			barrier()
+			eff := map[*tRoute][]int64{}
+			for _, r := range routes {
+				if r.cap != nil {
+					r.cap.take()
+					continue
+				}
+				cur := destCounts(r)
+				d := make([]int64, len(cur))
+				for k := range cur {
+					d[k] = cur[k] - lastDest[r][k]
+				}
+				eff[r] = d
+				lastDest[r] = cur
+			}
+			sentEff = eff
+			barriers = 0
+		}
 		scanLines(func(f []string, raw string) {
 			switch f[0] {
 			case "lvl":
@@ -327,6 +350,7 @@ func init() {
 						return
 					}
 					key := fmt.Sprintf("t%dr%d", tableSeq, i)
+					r.key = key
 					if r.kind == "cap" {
 						r.cap = &capRoute{key: key, m: &m}
 						tab.AddRoute(r.cap)
@@ -364,25 +388,7 @@ func init() {
 				sm, _ := matcher.New("__sentinel__", "", "", "", "", "")
 				sentinel = &capRoute{key: "sentinel", m: &sm}
 				tab.AddRoute(sentinel)
-				// measure what the barrier's own sentinel line does to the destination counters
-				sentEff = nil
-				barrier()
-				eff := map[*tRoute][]int64{}
-				for _, r := range routes {
-					if r.cap != nil {
-						r.cap.take()
-						continue
-					}
-					cur := destCounts(r)
-					d := make([]int64, len(cur))
-					for k := range cur {
-						d[k] = cur[k] - lastDest[r][k]
-					}
-					eff[r] = d
-					lastDest[r] = cur
-				}
-				sentEff = eff
-				barriers = 0
+				measureSentinel()
 				emit("built")
 			case "in", "inm", "inx", "inmx", "aggin":
 				line := unhexArg(f[1])
@@ -403,6 +409,65 @@ func init() {
 				if f[0] == "in" || f[0] == "inm" {
 					pump()
 				}
+			// ---- changes applied to the running table through its admin API (history streams) ----
+			case "addrw":
+				mx, _ := strconv.Atoi(f[4])
+				rw, err := rewriter.New(string(unhexArg(f[1])), string(unhexArg(f[2])), string(unhexArg(f[3])), mx)
+				if err != nil {
+					emit("op err")
+					return
+				}
+				tab.AddRewriter(rw)
+				emit("op ok")
+			case "delrw", "delbl":
+				i, _ := strconv.Atoi(f[1])
+				var err error
+				if f[0] == "delrw" {
+					err = tab.DelRewriter(i)
+				} else {
+					err = tab.DelBlacklist(i)
+				}
+				if err != nil {
+					emit("op err")
+				} else {
+					emit("op ok")
+				}
+			case "addbl":
+				b := mk6(f[1:])
+				m, err := matcher.New(b[0], b[1], b[2], b[3], b[4], b[5])
+				if err != nil {
+					emit("op err")
+					return
+				}
+				tab.AddBlacklist(&m)
+				emit("op ok")
+			case "modroute", "moddest":
+				ri, _ := strconv.Atoi(f[1])
+				if ri >= len(routes) || routes[ri].kind == "cap" {
+					emit("op skip")
+					return
+				}
+				r := routes[ri]
+				var b [6]string
+				var err error
+				if f[0] == "modroute" {
+					b = mk6(f[2:])
+				} else {
+					b = mk6(f[3:])
+				}
+				opts := map[string]string{"prefix": b[0], "notPrefix": b[1], "sub": b[2], "notSub": b[3], "regex": b[4], "notRegex": b[5]}
+				if f[0] == "modroute" {
+					err = tab.UpdateRoute(r.key, opts)
+				} else {
+					di, _ := strconv.Atoi(f[2])
+					err = tab.UpdateDestination(r.key, di, opts)
+				}
+				if err != nil {
+					emit("op err")
+				} else {
+					emit("op ok")
+				}
+				measureSentinel()
 			case "park":
 				atomic.StoreInt32(&parked, 1)
 			case "unpark":
